@@ -37,7 +37,7 @@ ARG_SHAPES = {
                     'bottom_joint_locations': (3, 6), 'top_joint_locations': (3, 6)},
     'SPFKinSpaceR': {'leg_lengths': (6,), 'top_plate_init': (6,), 'bottom_joints_init': (6, 3), 'top_joints_init': (6, 3)},
     'TrVec': {'transformation_matrix': (4, 4), 'vector': (3,)},
-    'RotInv': {'R': (3, 3)}, 'Normalize': {'V': ('k',)}, 'MatMul': {}, 'SafeDot': {}, 'NearZero': {}, 'SafeClip': {}, 'CubicTimeScaling': {}, 'QuinticTimeScaling': {},
+    'RotInv': {'R': (3, 3)}, 'Normalize': {'V': (3,)}, 'MatMul': {}, 'SafeDot': {}, 'NearZero': {}, 'SafeClip': {}, 'CubicTimeScaling': {}, 'QuinticTimeScaling': {},
 }
 # shapes the kernels return, in terms of their argument shapes (checked dynamically by the harness)
 RET_SHAPES = {
@@ -329,6 +329,47 @@ def scan_expr(e, fn, loops, hyps):
     for n in ast.walk(e):
         if isinstance(n, ast.Subscript):
             obligation(n, fn, loops, hyps)
+        elif isinstance(n, ast.Call) and isinstance(n.func, ast.Name) and n.func.id in ARG_SHAPES and n.func.id in KERNEL_PARAMS:
+            kernel_call(n, fn, loops, hyps)
+
+
+INNER_UNRESOLVED = []
+
+
+def kernel_call(n, fn, loops, hyps):
+    """a kernel calling another kernel: every argument whose shape resolves has the extents the callee documents (a callee that
+    indexes v[0], v[1], v[2] must not be handed a two-element slice); arguments sharing a documented symbol agree"""
+    doc = ARG_SHAPES[n.func.id]
+    binding = {}
+    for pname, arg in zip(KERNEL_PARAMS[n.func.id], n.args):
+        if pname not in doc:
+            continue
+        if isinstance(arg, ast.List):
+            sh = (len(arg.elts),)
+        elif isinstance(arg, ast.Call) and isinstance(arg.func, ast.Attribute) and arg.func.attr == 'reshape' and len(arg.args) == 1 \
+                and isinstance(arg.args[0], ast.Constant) and isinstance(arg.args[0].value, int):
+            sh = (arg.args[0].value,)
+        else:
+            sh = shape_of(arg, fn)
+        if not isinstance(sh, tuple) or sh[:1] in (('tuple',), ('shapeof',)) or any(d is None for d in sh):
+            INNER_UNRESOLVED.append('%s line %d: %s(%s=%s)' % (fn.name, n.lineno, n.func.id, pname, ast.unparse(arg)[:40]))
+            continue
+        want_sh = doc[pname]
+        if len(sh) == 2 and sh[1] == 1 and len(want_sh) == 1 and n.func.id in COLUMN_OK:
+            sh = (sh[0],)
+        if len(sh) != len(want_sh):
+            raise TranslationError('%s line %d: %s is passed an array of %d axes for %s' % (fn.name, n.lineno, n.func.id, len(sh), pname))
+        for k, (d, want) in enumerate(zip(sh, want_sh)):
+            ds = str(d) if isinstance(d, int) else sym(d, fn)
+            what = 'call %s(%s=%s) axis %d' % (n.func.id, pname, ast.unparse(arg)[:40], k)
+            if isinstance(want, int):
+                goal = '%d ≤ %s' % (want, ds)       # the callee's own theorems bound its indices by the documented extent
+            elif want in binding:
+                goal = '%s = %s' % (ds, binding[want])
+            else:
+                binding[want] = ds
+                continue
+            fn.obl.append({'fn': fn.name, 'line': n.lineno, 'what': what, 'hyps': list(hyps), 'goal': goal, 'notsize': sorted(set(loops) | set(fn.ints))})
 
 
 def obligation(n, fn, loops, hyps):
@@ -492,6 +533,11 @@ KERNEL_PARAMS = {}
 
 def translate():
     fns, skipped = [], []
+    del INNER_UNRESOLVED[:]
+    for rel in FILES:      # first the parameter names of every kernel (a kernel may call one defined further down)
+        for node in ast.parse(open(os.path.join(REPO, rel)).read()).body:
+            if isinstance(node, ast.FunctionDef) and is_jit(node):
+                KERNEL_PARAMS[node.name] = [a.arg for a in node.args.args]
     for rel in FILES:
         tree = ast.parse(open(os.path.join(REPO, rel)).read())
         for node in tree.body:
@@ -552,7 +598,7 @@ def generate():
         open(OUT, 'w').write(text)
     kern = [f for f in fns if not isinstance(f, _Site)]
     return {'generated_obligations': n, 'kernels': len(kern), 'kernels_with_subscripts': sum(1 for f in kern if f.obl), 'names': names,
-            'call_site_obligations': len(site_obl), 'call_site_arguments_not_resolved': unresolved,
+            'call_site_obligations': len(site_obl), 'call_site_arguments_not_resolved': unresolved, 'kernel_to_kernel_arguments_not_resolved': sorted(set(INNER_UNRESOLVED)),
             'not_jit_functions_in_the_modules': skipped, 'per_kernel': {f.name: len(f.obl) for f in fns}}
 
 
